@@ -108,10 +108,12 @@ class Case final : public sim::CaseBase {
       sim::Fail("OVERLAP", "a job of the outer strand overlaps a job of the strand it runs on (job %d)", idx);
     }
     // critical section with preemption points; the plain cell is what C04's race build watches
+    sim::RaceRead(&cell, sizeof cell);
     const std::uint64_t before = cell;
     for (int i = 0; i < body_points; ++i) {
       sim::Point();
     }
+    sim::RaceWrite(&cell, sizeof cell);
     cell = before + 1;
     if (inside[j.group] != 1) {
       sim::Fail("OVERLAP", "another job of the same strand entered while job %d was inside", idx);
